@@ -111,6 +111,19 @@ Theorem C02_sampling_loop_rows :
 Proof. exact sampling_trace_accepted. Qed.
 Print Assumptions C02_sampling_loop_rows.
 
+(* BatchBALD: the pick made by query() (second tie-break, sample space) is the image of the pick batch_bald made when it
+   computed the rows (first tie-break, candidate space) whenever the row has a unique maximiser - then the reported rows carry
+   the NaN marks of the picks that are actually returned *)
+Theorem C02_batchbald_step_agrees :
+  forall (n : nat) (mapping : list nat) (r : list val) (nzA nzB : list Z) (v : Z),
+  NoDup mapping -> length r = length mapping -> Forall (fun j => (j < n)%nat) mapping ->
+  noise_ok (length r) nzA -> noise_ok n nzB -> nanmax r = Some v ->
+  let row := scatter mapping r (repeat None n) in
+  (forall i j, (i < n)%nat -> (j < n)%nat -> nth i row None = Some v -> nth j row None = Some v -> i = j) ->
+  rand_argmax row nzB = nth (rand_argmax r nzA) mapping O.
+Proof. exact bald_step_agrees. Qed.
+Print Assumptions C02_batchbald_step_agrees.
+
 (* rows built with one tie-break and winners re-derived with another one (the
    BatchBALD pattern) allow a repeated pick: witness with two tied maxima *)
 Theorem C02_two_tiebreaks_refuted :
